@@ -14,7 +14,9 @@ META = {
     "level_text": "Theorems for all file contents, all chunk sizes >= 1, all directory trees with unique names per directory (any depth/fan-out, "
                   "empty directories, special entries), all filters and all pre-existing destinations (props/C20.v): the chunk loop is the identity with "
                   "ceil(len/chunk) writes; copying into nothing yields exactly the pruned tree; copying into existing content overlays it and touches nothing else; "
-                  "prune removes exactly the rejected names; upload and download are one function up to the side swap. The loop statements, open modes and the side "
+                  "prune removes exactly the rejected names; upload and download are one function up to the side swap; the loop guard equals the caller's filter for every "
+                  "filter that is true in a boolean context (for all filters once the code tests `filter is None`; refuted for falsy filter objects while it tests "
+                  "`not filter`). The loop statements, open modes, the filter guard and the side "
                   "of every filesystem call are regenerated from classic.py on every run and tied by computation; the extracted model is compared with the real "
                   "functions over a real connection pair. Proof is the right level: the property quantifies over all trees, contents, chunk sizes and filters.",
     "level_note": "Trusted: Coq kernel, pygen, extraction + driver, harness. The OS file API (read returns up to n bytes and b'' only at EOF, 'wb' truncates, "
